@@ -1125,6 +1125,17 @@ variant("dataerrortostatus-early-nil",
 		return smtperr.Code, smtperr.EnhancedCode, smtperr.Message
 	}
 	return 554, EnhancedCode{5, 0, 0}, "Error: transaction failed: " + err.Error()"""))
+variant("reset-also-clears-binarymime",
+  ("conn.go", """	c.bdatStatus = nil
+	c.bytesReceived = 0
+
+	if c.session != nil {
+		c.session.Reset()""", """	c.bdatStatus = nil
+	c.bytesReceived = 0
+	c.binarymime = false
+
+	if c.session != nil {
+		c.session.Reset()"""))
 if sys.argv[1:] == ['--export']:
     out = [{"id": "benign-" + n, "edits": [{"file": f, "old": o, "new": w} for f, o, w in V[n]]} for n in V]
     json.dump(out, open('/verif/liveness/benign.json', 'w'), indent=1)
